@@ -530,7 +530,7 @@ func (Engine) Shrink(sci interface{}) []interface{} {
 
 func (Engine) Describe() harness.EngineInfo {
 	return harness.EngineInfo{
-		Rule:        "input = a window of a repository .py file, a generated scoping program, grammar-covering snippets or an expression, damaged by 1-3 stream faults at seeded positions (truncation = EOF at an arbitrary byte; bit flip; inserted bytes/token fragments from an alphabet of ~95 incl. NUL, CR, FF, invalid and truncated UTF-8, malformed number/string prefixes, brackets, keywords; deleted range; duplicated/swapped lines; indentation corruption), compiled in exec/single/eval mode; 40% of inputs are delivered to parser.Parse through a faulty io.Reader (1..7 bytes per Read, optional (0,nil) reads, optional read error after k bytes). distinct = distinct (damaged bytes, mode, delivery) by hash; every run is non-trivial (at least one fault or a faulty reader)",
+		Rule:        "input = a window of a repository .py file, a generated scoping program, grammar-covering snippets or an expression, damaged by 1-3 stream faults at seeded positions (truncation = EOF at an arbitrary byte; bit flip; inserted bytes/token fragments from an alphabet of ~95 incl. NUL, CR, FF, invalid and truncated UTF-8, malformed number/string prefixes, brackets, keywords; deleted range; duplicated/swapped lines; indentation corruption), compiled in exec/single/eval mode; 40% of inputs are delivered to parser.Parse through a faulty io.Reader (1..7 bytes per Read, optional (0,nil) reads, optional read error after k bytes). distinct = distinct (damaged bytes, mode, delivery) by hash; every run is non-trivial (at least one fault or a faulty reader); 1 in 40 stress sources is a block (while / if-else / for-else / try-finally / 14 nested ifs) of 16376-33000 statements, i.e. code longer than a 16-bit jump argument reaches, sampled around the 65535/65536 boundary",
 		Real:        []string{"parser.Parse / lexer / yacc actions", "symtable.NewSymTable", "compile.Compile", "py.MakeSyntaxError"},
 		Stubbed:     []string{"the source stream (bytes.Buffer -> fault-injecting io.Reader)", "wall-clock hang detection -> deterministic step budget (preemption points at every function entry and loop head of parser/symtable/compile)", "Go map iteration order -> simulator"},
 		Assumptions: []string{"an exception counts as SyntaxError-family if its type is SyntaxError or a subtype (IndentationError, TabError) and it carries filename, lineno and offset", "when the reader reports an error the call must fail (any SyntaxError-family or OSError-family exception is accepted there: the property only constrains what compilation itself may report); exhaustive enumeration of token sequences is not done (that would be bounded model checking)"},
